@@ -157,6 +157,7 @@ type msgPlan struct {
 	Handler  int // index of the router handler that receives it (router mode); -1 = dispatched directly (no Router context)
 	Attempts []attemptPlan
 	Ctx      []ctxInj // foreign context values application code stores on the message (extended classes)
+	At       int      // 'router+lifecycle': delivered in the message phase after this wave was started (waves+1 = after the whole history)
 }
 
 func (p *msgPlan) attempt(k int) *attemptPlan {
